@@ -32,7 +32,22 @@ TEXT = {
 NOTE = ("Held = held on the executions this run produced (counts in the evidence file). Trusted: rustc/LLVM, Miri / sanitizer runtimes, "
         "the harness's registries, identity wakers and reference models (validated against seeded breaks, DESIGN.md §7). "
         "No claim about histories longer / wider than explored, schedules not produced, or types not instantiated.")
+THREADED = "runtime monitoring: history oracle over hooked state (single-thread fixpoint + random + scenario histories) and threaded stress monitor with history oracles over call / return stamps"
 TECH = {
+    "C02": THREADED + " (holder overlap, non-atomic counter under ThreadSanitizer / Miri)",
+    "C03": THREADED + " (logical deadlock rule with waker generations)",
+    "C04": THREADED + " (fairness oracle over first-poll / completion stamps)",
+    "C05": THREADED + " (permit ledger, borrowed and shared flavour)",
+    "C06": THREADED + " (logical deadlock rule with waker generations)",
+    "C07": THREADED + " (fairness oracle over first-poll / completion stamps)",
+    "C08": THREADED + " (exactly-once ledger of unique values; sanitizers)",
+    "C09": THREADED + " (FIFO pair condition with effect points, capacity interval overlap)",
+    "C10": THREADED + " (logical deadlock rule with waker generations)",
+    "C11": THREADED + " (last-handle races, close / send race)",
+    "C12": THREADED + " (winner-takes-all race of two senders and a closer)",
+    "C13": THREADED + " (followers against the publication order, both flavours)",
+    "C14": THREADED + " (linearizability search of short histories against the latching event)",
+    "C15": THREADED + " (logical rule for a due timer skipped by check_expirations)",
     "C16": "compile-probe matrix + Miri race detector with thread-affinity monitor",
     "C19": "differential runtime monitor vs VecDeque + drop counters (native, Miri, ASan)",
     "C20": "differential runtime monitor + structural validator (native, debug-assert, Miri, ASan)",
